@@ -14,7 +14,7 @@ META = {
                    'something whose lifetime is a single line (the per-run collector\'s objects, positions in the per-line code buffer).',
     'not_decided': ['the session/concatenation equivalence itself (a relation between runs)'],
 }
-PERSISTENT = {'globals': "the session's variables"}
+PERSISTENT = {'globals': "the session's variables", 'globals_assigned': "which of the session's variables have been stored to"}
 
 
 def pre_loop_blocks(ctx):
@@ -164,6 +164,72 @@ def run(ctx, rep):
     defs_removed = restored.get('symbols')
     rep.ob(defs_removed or not und, 'R17.3', 'vm::VM::run', 'never-stored global slot',
            'a failed line leaves its `stel` definitions in the symbol table; reading such a slot indexes globals out of bounds (panic) unless GetGlobal checks', 'src/vm.rs')
+    # a slot that exists only as padding below a later variable must stay distinguishable from a stored one: a line that failed
+    # at run time before its `stel` stored anything has declared the name (compile time) but not given it a value
+    sg = v['arms'].get('SetGlobal')
+    gfield = 'globals'
+    pads = []
+    marker_written = set()
+    if sg:
+        for b in sorted(sg['region']):
+            t_ = fn.term(b)
+            if t_['k'] == 'call' and t_['args']:
+                n_ = callee_name(t_)
+                a0 = str(sym(fn, t_['args'][0]))
+                if n_.endswith(('Vec::<T, A>::push', 'Vec::<T, A>::resize', 'Vec::<T, A>::extend', 'Vec::<T, A>::insert')) and "'%s'" % gfield in a0:
+                    pads.append((b, n_.split('::')[-1]))
+                elif n_.endswith(('IndexMut<I>>::index_mut', 'Vec::<T, A>::resize', 'Vec::<T, A>::push')) and "'%s'" % gfield not in a0:
+                    for f_ in fields:
+                        if "'%s'" % f_ in a0 and f_ != gfield:
+                            marker_written.add(f_)
+            for st_ in fn.blocks[b]['stmts']:
+                if st_['k'] == 'assign' and st_['place']['proj']:
+                    fl = place_fields(st_['place'])
+                    if fl and fl[0] != gfield and fn.alias_root(st_['place']['local']) == 1:
+                        marker_written.add(fl[0])
+    marker_read = set()
+    if gg:
+        for b in sorted(gg['region']):
+            t_ = fn.term(b)
+            texts = [str(sym(fn, a_)) for a_ in (t_.get('args') or [])] if t_['k'] == 'call' else ([str(sym(fn, t_['op']))] if t_['k'] == 'switch' else [])
+            for f_ in fields:
+                if f_ != gfield and any("'%s'" % f_ in x for x in texts):
+                    marker_read.add(f_)
+    marker = (marker_written & marker_read) - {'stack', 'ip', 'instructions'}
+    # ... and the marker must say `not stored` for padding and `stored` for the slot being written
+    marker_vals_ok = True
+    if sg and marker:
+        for b in sorted(sg['region']):
+            t_ = fn.term(b)
+            if t_['k'] == 'call' and t_['args']:
+                n_ = callee_name(t_)
+                a0 = str(sym(fn, t_['args'][0]))
+                if any("'%s'" % m_ in a0 for m_ in marker) and n_.endswith(('Vec::<T, A>::push', 'Vec::<T, A>::resize')):
+                    fill = strip(sym(fn, t_['args'][-1]))
+                    if fill != ('int', 0):
+                        marker_vals_ok = False
+            for st_ in fn.blocks[b]['stmts']:
+                if st_['k'] == 'assign' and st_['place']['proj'] and st_['place']['proj'][0] == 'deref' and len(st_['place']['proj']) == 1:
+                    d_ = fn.single_def(st_['place']['local'])
+                    if d_ and d_[0] == 'call' and callee_name(d_[2]).endswith('IndexMut<I>>::index_mut') and any("'%s'" % m_ in str(sym(fn, d_[2]['args'][0])) for m_ in marker):
+                        v_ = strip(psc.sym_rv(fn, st_['rv']))
+                        if v_ != ('int', 1):
+                            marker_vals_ok = False
+    if marker and not marker_vals_ok:
+        marker = set()
+    rep.ob(not pads or bool(marker), 'R17.3', 'vm::VM::run', 'padding of never-stored slots',
+           'SetGlobal creates the slots below its own as padding (%s) and GetGlobal cannot tell such a slot from a stored one%s: after `stel x = 1/0` '
+           '(declared, never stored) and a later `stel y = 7`, reading x gives null instead of an error' % (
+               ', '.join(sorted({p_[1] for p_ in pads})) or 'none', '' if not marker else ' (marker field: %s)' % sorted(marker)), 'src/vm.rs')
+    # a line that fails at run time before the store of its `stel` has still declared the name at compile time: unless a
+    # redeclaration reuses the slot of the existing global (or the session takes the declaration back), the earlier binding is hidden
+    cd = F.fn('symbols::Context::define')
+    looks_up = any(callee_name(t_).endswith(('::position', '::rposition', '::contains', '::find', 'PartialEq>::eq', '::resolve')) for b_, t_ in cd.calls())
+    retract = [f_.path for f_ in F.all_fns if f_.path.startswith('compiler::Compiler::') and f_.j.get('vis', '').startswith('Public')
+               and any(w in f_.path.split('::')[-1] for w in ('retract', 'forget', 'rollback', 'undo'))]
+    rep.ob(looks_up or bool(retract), 'R17.3', 'symbols::Context::define', 'redeclaration after a failed run',
+           'every `stel` takes a fresh slot at compile time and nothing takes the declaration back when the line fails at run time before '
+           'its store: after `stel x = 1` and a failing `stel x = 1/0`, `x` names the new, never-stored slot instead of still being 1', cd.loc())
     # ---- R17.4 ---------------------------------------------------------------------------------
     # (globals, per-run collector): globals persist in the VM, heap objects they point to are owned by the GC local of run()
     gcs_local = any(callee_name(t) == 'gc::GC::new' for b, t in fn.calls())
